@@ -15,7 +15,7 @@ EXPLANATION = ("Census over everything reachable (over-approximate call graph in
                "constant (interval), chunk loads read through a bounded take, bincode runs with a Bounded limit that fits u32; (RECUR) every direct "
                "self-recursive call is tabled with its depth bound; (R08.1) callers of the Empty-placeholder panic test for it first; (R08.2) "
                "BlocksToFileReader::new is entered only after the offsets.is_empty() test; (R08.3) the file-name length limit dominates the name "
-               "allocation; (R08.4) every loop around a raw Read::read compares the returned count with 0 (necessary part of termination at end of input). Termination of loops "
+               "allocation; (R08.4) every loop around a raw Read::read compares the returned count with 0 (necessary part of termination at end of input); (R08.5) a buffer allocated for a read loop has a size of at least 1. Field invariants (private integer fields, fixpoint over all stores) and symbolic slice lengths take part in the discharge. Termination of loops "
                "in general, wall time and peak memory as numbers are not decided.")
 TRUSTED = ['rustc MIR (overflow checks on)', 'dependencies (brotli, bincode, byteorder, RustCrypto, std) do not panic on the values MLA hands them other than at the call sites enumerated',
            'Read/Write contracts (returned count <= buffer length)']
